@@ -4,13 +4,14 @@ property each change violates most directly in m<i>/property.txt): copy <worktre
 seeded/<Cxx>-r4a<area>m<i>/ and write meta.json."""
 import json, os, re, shutil, sys
 wt, area = sys.argv[1:3]
+rnd = sys.argv[3] if len(sys.argv) > 3 else "4"
 V = os.path.dirname(os.path.dirname(os.path.abspath(__file__)))
 for i in (1, 2, 3, 4):
     src = os.path.join(wt, "_out", "m%d" % i)
     if not os.path.isdir(src):
         continue
     P = open(os.path.join(src, "property.txt")).read().strip()[:3]
-    dst = os.path.join(V, "seeded", "%s-r4a%sm%d" % (P, area, i))
+    dst = os.path.join(V, "seeded", "%s-r%sa%sm%d" % (P, rnd, area, i))
     os.makedirs(dst, exist_ok=True)
     for f in ("patch.diff", "seeded_demo.rs", "notes.md"):
         shutil.copy(os.path.join(src, f), os.path.join(dst, f))
@@ -19,7 +20,7 @@ for i in (1, 2, 3, 4):
     title = re.sub(r"^(C\d\d ?/ ?)?m\d ?[-:] ?", "", title)
     m = re.search(r"##\s*What it needs[^\n]*\n(.*?)(\n## |\Z)", notes, re.S)
     needs = " ".join(m.group(1).split())[:600] if m else ""
-    meta = {"property": P, "round": 4, "change": title, "needs_to_manifest": needs,
+    meta = {"property": P, "round": int(rnd), "change": title, "needs_to_manifest": needs,
             "written_by": "independent sub-agent given the texts of all properties, one source area and a scratch worktree; it named the property the change violates most directly",
             "confirmed": "tools/confirm_seed.sh in a scratch worktree: 137 tests + doctests pass with the change; demonstration fails with it and passes without it",
             "ran": "python3 tools/seedall.py --only %s-r4a%sm%d" % (P, area, i)}
